@@ -121,7 +121,9 @@ static const char *T_QRY[] = {"&", "=", "%", "+", "a", " "};
 static const char *T_INI[] = {"a", "b", "=", "${a}", "${b}", "${", "}", "$", "{", "[", "]", "#", "\n", " ", "${%E}", "${!x}", "a=${a}\n", "a=${b}\n", "b=x${a}${a}\n", "${%}", "${!}"};
 /* whole lines whose values hold PIECES of references: an unbalanced "${a", a stray "}", "$" and "{x}" that only become a
  * reference when one value is substituted into another (cycles that no single stored value shows) */
-static const char *T_INIREF[] = {"a=${b}}\n", "b=${a\n", "c=${a}\n", "a=${b}}${b}}\n", "b=${a}\n", "a=$\n", "c=${a}{a}\n", "a={a}$\n", "b=${\n", "c=${b}a}\n", "a=${b\n", "b=}\n", "c=${a}${b}\n", "a=x${c}\n"};
+static const char *T_INIREF[] = {"a=${b}}\n", "b=${a\n", "c=${a}\n", "a=${b}}${b}}\n", "b=${a}\n", "a=$\n", "c=${a}{a}\n", "a={a}$\n", "b=${\n", "c=${b}a}\n", "a=${b\n", "b=}\n", "c=${a}${b}\n", "a=x${c}\n",
+    /* nested names, an empty value that joins '$' and '{', a plain '{' inside a name */
+    "x=${${p}}\n", "p=x\n", "z=${x}\n", "x=$${e}{x}\n", "e=\n", "{x}=${v}}\n", "v=${{x}\n", "z=${v}}\n"};
 static const char *T_INIF[] = {"@INCLUDE inc.conf", "@INCLUDE empty.conf", "@INCLUDE missing.conf", "@INCLUDE", " ", "\n", "a=b", "#", "${a}", "/", "inc.conf"};
 static const char *T_AC[] = {"a", " ", "\t", "'", "\"", "\\", "<", "</", ">", "\n", "#", "1", "On", "s"};
 
